@@ -19,6 +19,16 @@ def subtreesKids : List (Bytes × N) → List N
   | (_, c) :: r => subtrees c ++ subtreesKids r
 end
 
+mutual
+/-- `subtrees` is the enumeration the lemmas work with -/
+private theorem subtrees_eq : ∀ n : N, subtrees n = CowL.sub n
+  | .leaf h items => by rw [subtrees, CowL.sub_leaf]
+  | .branch h kids => by rw [subtrees, CowL.sub_branch, subtreesKids_eq kids]
+private theorem subtreesKids_eq : ∀ kids : List (Bytes × N), subtreesKids kids = CowL.subKids kids
+  | [] => by rw [subtreesKids, CowL.subKids_nil]
+  | (s, c) :: r => by rw [subtreesKids, CowL.subKids_cons, subtrees_eq c, subtreesKids_eq r]
+end
+
 /-- **copy-on-write**: every node of the committed tree that is an old page (page id ≠ 0) is a
     node of the old tree, unchanged together with everything below it -/
 theorem commit_copy_on_write (ps sth rth fuel : Nat) (t t' : N) (ops : List Op) (order : List Nat)
@@ -26,7 +36,22 @@ theorem commit_copy_on_write (ps sth rth fuel : Nat) (t t' : N) (ops : List Op) 
     (hf : C04Tree.fuelBound t ops ≤ fuel)
     (h : commit ps sth rth fuel t ops order = some t') :
     ∀ n' ∈ subtrees t', n'.hd.pgid ≠ 0 → n' ∈ subtrees t := by
-  sorry
+  have _ := hn     -- not needed: the argument never identifies a node by its page id
+  have hdt : depth t ≤ fuel := by unfold C04Tree.fuelBound at hf; omega
+  unfold commit at h
+  obtain ⟨t1, h1, h⟩ := Option.bind_eq_some_iff.mp h
+  obtain ⟨t2, h2, h3⟩ := Option.bind_eq_some_iff.mp h
+  -- the invariant holds when the spill starts
+  have hr1 : InTxR t1 := C04Tree.applyOps_inTxR fuel t t1 ops hc hk hdt h1
+  obtain ⟨t2', h2', hr2, _, _⟩ := C04Tree.rebalanceAll_refines rth fuel t1 order hr1
+  rw [h2] at h2'
+  cases h2'
+  -- Put/Delete and rebalance never touch an unmaterialised subtree; spill keeps them verbatim
+  -- and gives page id 0 to everything it writes
+  have := CowL.phases_cow ps sth rth fuel t t1 t2 t' ops order (OpsL.committedN_hd true t hc.1) h1 h2
+    (C04Tree.inTxR_inTx t2 hr2) h3
+  rw [subtrees_eq t', subtrees_eq t]
+  exact this
 
 /-- in particular the kept pages hold exactly the content they held -/
 theorem kept_page_content (ps sth rth fuel : Nat) (t t' : N) (ops : List Op) (order : List Nat)
@@ -34,13 +59,15 @@ theorem kept_page_content (ps sth rth fuel : Nat) (t t' : N) (ops : List Op) (or
     (hf : C04Tree.fuelBound t ops ≤ fuel)
     (h : commit ps sth rth fuel t ops order = some t') :
     ∀ n' ∈ subtrees t', n'.hd.pgid ≠ 0 →
-      ∃ n ∈ subtrees t, n.hd.pgid = n'.hd.pgid ∧ flatten n = flatten n' ∧ n.keys = n'.keys := by
-  sorry
+      ∃ n ∈ subtrees t, n.hd.pgid = n'.hd.pgid ∧ flatten n = flatten n' ∧ n.keys = n'.keys :=
+  fun n' hn' h0 =>
+    ⟨n', commit_copy_on_write ps sth rth fuel t t' ops order hc hn hk hf h n' hn' h0, rfl, rfl, rfl⟩
 
 /-- non-vacuity: in the example transaction of `C04Tree` the untouched leaf (page 5) survives -/
 example : ∃ t', commit 256 128 64 20 C04Tree.exTree
       [.del [10], .del [11], .put [4] [7], .put [5] [7], .put [6] [7], .put [7] [7]] [4, 3, 9, 5] = some t' ∧
       ((subtrees t').filter (fun n => n.hd.pgid ≠ 0)).map (fun n => n.hd.pgid) = [5] := by
-  sorry
+  refine ⟨_, rfl, ?_⟩
+  decide
 
 end Bolt.C06Tree
